@@ -119,8 +119,9 @@ struct Rec : public CValidationInterface {
     std::string err;
     // Property-level monitors only: a removal may only be reported for a transaction that was reported added and
     // not reported removed since; a transaction reported removed "for block" must be in that block. Completeness of
-    // the notifications (e.g. equality of the replayed and the real mempool) is NOT demanded: the property does not,
-    // and MempoolTransactionsRemovedForBlock is deliberately not fired during initial block download.
+    // the notifications is checked separately in extra_check (replayed mempool == real mempool), which is sound only
+    // because this part runs on a node that has left initial block download (MempoolTransactionsRemovedForBlock is
+    // deliberately not fired during IBD).
     void TransactionAddedToMempool(const NewMempoolTransactionInfo& tx, uint64_t) override
     {
         pool.insert(tx.info.m_tx->GetHash().ToUint256());
@@ -182,9 +183,19 @@ int main(int argc, char** argv)
             s.n.m_node.validation_signals->RegisterValidationInterface(rec);
             s.extra_check = [&s](const std::string& e) {
                 if (!rec->err.empty()) { s.fs.report("C63-notification-inconsistent", "after '" + e + "': " + rec->err); rec->err.clear(); }
+                // outside initial block download every way a transaction leaves the mempool is announced (RemovedFromMempool
+                // with a reason, or RemovedForBlock), and every way it enters is (AddedToMempool): a transaction that
+                // silently vanished or appeared was not "described"
+                {
+                    std::set<uint256> real;
+                    for (auto& i : s.n.pool().infoAll()) real.insert(i.tx->GetHash().ToUint256());
+                    for (auto& h : rec->pool) if (!real.count(h)) { s.fs.report("C63-mempool-removal-not-reported", "after '" + e + "': transaction " + h.ToString().substr(0, 10) + " left the mempool but no TransactionRemovedFromMempool / MempoolTransactionsRemovedForBlock notification reported it"); break; }
+                    for (auto& h : real) if (!rec->pool.count(h)) { s.fs.report("C63-mempool-addition-not-reported", "after '" + e + "': transaction " + h.ToString().substr(0, 10) + " is in the mempool but no TransactionAddedToMempool notification reported it"); break; }
+                    rec->pool = real; // resynchronise so one omission is reported once
+                }
                 if (!rec->chain.empty() && rec->chain.back() != s.n.tip()->GetBlockHash()) s.fs.report("C63-replayed-tip-differs", "after '" + e + "': replaying BlockConnected/BlockDisconnected gives tip " + rec->chain.back().ToString().substr(0, 12) + " but the node's tip is " + s.n.tip()->GetBlockHash().ToString().substr(0, 12));
             };
-            p.what = "part (a) oracle: replaying BlockConnected/BlockDisconnected notifications (registered before the base chain is built) reproduces the node's tip after every event, and every mempool removal notification (RemovedFromMempool / RemovedForBlock) refers to a transaction that was reported added and not yet reported removed, and to a transaction of the named block (transactions enter through ProcessTransaction, leave in blocks, return on reorgs; node outside IBD)";
+            p.what = "part (a) oracle: replaying BlockConnected/BlockDisconnected notifications (registered before the base chain is built) reproduces the node's tip after every event, and every mempool removal notification (RemovedFromMempool / RemovedForBlock) refers to a transaction that was reported added and not yet reported removed, and to a transaction of the named block; outside initial block download the mempool replayed from the notifications equals the real mempool after every event (transactions enter through ProcessTransaction, leave in blocks, return on reorgs; node outside IBD)";
             return p;
         });
         if (rc >= 0) return rc;
